@@ -29,6 +29,9 @@ NOTES = {
  'C06-b': 'demo.py relies on F23 to end a run loop: confirmed by replay instead (the check reaches the restart through an injected run-loop cancellation)',
  'C10-c': 'demo.py cannot see the defect since the F5b repair completes the interrupted children: confirmed by replay instead (`not_cancelled_at_deadline`)',
  'C03-e': 'fifth round (after the repairs; C03, C05, C08, C10 had lost seeds to retirement). Missed at first: C03 had no raising handlers on parallel buses -> `errors_parallel` and `parallel` added to the C03 profiles (silent on the unchanged tree over seed blocks 0-8)',
+ 'C06-d': 'late round. Missed at first: every generated handler died at once when cancelled -> handlers that need time to unwind (`cleanup` attribute: an awaited sleep in the cancellation path, cut short by a second cancellation) and profile `timeouts_cleanup`; the first version of that harness code forgot the exit record when the unwinding itself was cancelled and produced a false overlap on the unchanged tree (corrected before the profile was registered)',
+ 'C07-d': 'late round. Missed at first: forwarding topologies had no handler timeouts -> profile `topo_timeouts` (slow, child-less handlers with short timeouts next to forwards)',
+ 'C11-d': 'late round. Missed at first: generated exceptions were never chained -> kind `Chained` (`raise X from Y` inside an `except` block) in the error profiles. (On the unchanged tree such an exception makes the library\'s traceback filter recurse until RecursionError, which is swallowed after the error has been recorded - no property of this list is affected.)',
  'C04-c': 'missed at first: C04 profiles had no handler timeouts -> `timeouts` added to C04 (and F5b recognised there)',
 }
 out = ['| seeded id | property | change (by an independent sub-agent) | needs | caught by (quick check: clauses) | note |', '|---|---|---|---|---|---|']
